@@ -16,6 +16,9 @@ struct fault_plan
     int close_count = 0;
     int send_fail_at = -1;    // k-th send()/sendmsg() on a client descriptor fails with EPIPE
     int send_count = 0;
+    int send_eintr_at = -1;   // k-th send() on a client descriptor transmits only half of its bytes, the send() after it is
+                              // interrupted by a signal (EINTR): a blocked send interrupted after partial progress
+    bool eintr_pending = false; int eintr_count = 0;
 };
 
 void ilog(const std::string & event);            // append an event to the shared, ordered log
